@@ -4,6 +4,12 @@ import threading
 
 
 class Job:
+    def prepare(self):
+        """
+        Called when the job is started, before its own thread exists. A stop
+        requested from then on, even before execute() gets to run, must be
+        honored by execute().
+        """
     def execute(self): pass
     def request_stop(self): pass
 
@@ -31,6 +37,9 @@ class Agent:
         return self._thread is not None and self._thread.is_alive()
 
     def execute(self):
+        prepare = getattr(self._job, 'prepare', None)
+        if prepare is not None:
+            prepare()
         self._thread = threading.Thread(target=self._execute_and_call)
         self._thread.start()
         return self
